@@ -521,6 +521,22 @@ def _plots(R, dim):
                         case=R.case)
     elif res:
         r.violation(f'C20:plots:compare_{dim}d:raises', f'{label}: raised {res[0].name}: {res[0].msg}', case=R.case)
+    # mixed dtypes: the real table has integer and boolean columns, the synthetic one (what a fitted model samples) has
+    # non-integer floats in the same columns; every synthetic row is still drawn where it is
+    reali = pd.DataFrame({'p': np.array([1, 2, 2, 4], dtype=np.int64), 'q': [10.0, 20.0, 20.0, 5.0],
+                          'r': np.array([True, False, False, True])}).iloc[:, :dim]
+    synf = pd.DataFrame({'p': [1.37, 2.81, 3.49], 'q': [11.5, 6.25, 19.75], 'r': [0.31, 0.77, 0.52]}).iloc[:, :dim]
+    wanti = sorted(tuple(float(v) for v in row) for row in reali.to_numpy().tolist())
+    wsynf = sorted(map(tuple, synf.to_numpy().tolist()))
+    label = f'plots:compare_{dim}d(real with int64/bool columns, synthetic with non-integer floats)'
+    res = R.twice(label, compare, (reali, synf))
+    if res and not isinstance(res[0], zoo.Raised):
+        tp = trace_points(res[0])
+        if tp != {'Real': wanti, 'Synthetic': wsynf}:
+            r.violation(f'C20:plots:compare_{dim}d:wrong-points', f'{label}: traces {tp}; expected Real={wanti}, Synthetic={wsynf}',
+                        case=R.case)
+    elif res:
+        r.violation(f'C20:plots:compare_{dim}d:raises', f'{label}: raised {res[0].name}: {res[0].msg}', case=R.case)
     if dim == 2:
         s = pd.Series([1.0, 2.0, 3.5, 2.2], name='v')
         R.twice('plots:dist_1d(Series)', V.dist_1d, (s,))
